@@ -82,6 +82,16 @@ def run_registry(acc, srv, key, n_pairs, tier):
                                                                        "; ".join(probs[:3])), case)
             elif len(acc.samples) < acc.max_samples and len(created) > 10:
                 acc.sample(case)
+    # the cap holds for ANY limit value, also ones that are not page sizes of a walk (0, huge)
+    cursors = [None] + [list(rw.model[k]["assets"]) for k in rng.sample(created, min(2, len(created)))]
+    for lim in (0, 31, 64, 255, 256, 65536, (1 << 31) - 1, (1 << 32) - 1):
+        for cur in cursors:
+            r = rw.pairs_page(cur, lim)
+            acc.ev()
+            acc.cls("cap", "L%d" % lim, r["r"])
+            if r["r"] == "ok" and len(r["v"]["pairs"]) > 30:
+                acc.violation("a page of %d entries was returned for limit=%d" % (len(r["v"]["pairs"]), lim),
+                              {"kind": "registry", "world_key": list(key), "pairs": len(created), "limit": lim})
     # default == 10, cap == 30, first pages
     p_none = rw.pairs_page(None, None)
     p_10 = rw.pairs_page(None, 10)
